@@ -525,9 +525,9 @@ def process_config(args):
                     res["forks"] += c.forks
                     res["max_depth"] = max(res["max_depth"], len(c.trace))
                     # reachability twin: assumptions + path must be satisfiable
-                    r = c._fresh_check(z3.BoolVal(True)) if c.nl_mode else c.solver.check()
+                    r = c._fresh_check(z3.BoolVal(True), retry=False) if c.nl_mode else c.solver.check()
                     if r == z3.unknown:
-                        r = c._fresh_check(z3.BoolVal(True))
+                        r = c._fresh_check(z3.BoolVal(True), retry=False)
                     if r == z3.unknown:
                         # vacuity guard only: satisfiable with UF applications as free reals (relaxation)
                         ab = abstract_ufs(list(c.assumptions) + c.path_condition())
@@ -538,6 +538,9 @@ def process_config(args):
                             if s_.check() == z3.sat:
                                 r = z3.sat
                                 res["feasible_modulo_uf"] = res.get("feasible_modulo_uf", 0) + 1
+                    if r == z3.unknown:
+                        # last resort before the path counts as inconclusive: the full query once more with four times the budget
+                        r = c._fresh_check(z3.BoolVal(True), retry=False, factor=4)
                     if r == z3.unsat:
                         res["infeasible"] += 1
                         continue
